@@ -42,7 +42,7 @@ def _case(draw):
     elif kind == "point":
         body = draw(build.point_mass())
     else:
-        body = draw(build.frame_body(moving=True, rotating=draw(st.sampled_from([True, True, False]))))
+        body = draw(build.frame_body(moving=draw(st.sampled_from([True, True, False])), rotating=draw(st.sampled_from([True, True, False]))))
     off = draw(st.sampled_from(["zero", "small", "large", "large"]))
     if off == "zero":
         B = [0.0, 0.0, 0.0]
@@ -224,7 +224,9 @@ def check(spec):
             # the difference f(sB) - f(0) carries the round-off of f: ulp(f0)/s
             noise = 8 * float(np.max(np.spacing(np.abs(f0)))) / s_small if f0.size else 0.0
             err = float(np.max(np.abs(ds / s_small - dB)))
-            if err > 1e-6 * scale_ + noise:
+            # (absolute floor: an offset along the rotation axis makes f(B) - f(0) itself a rounded zero)
+            floor_ = 1e-12 * (1.0 + float(np.max(np.abs(f0))) + float(np.max(np.abs(np.asarray(fn(B), dtype=float)))))
+            if err > 1e-6 * scale_ + noise + floor_:
                 res.fail("offset_enters_linearly", f"{site}.{nm}", err / scale_, feats, f"relative defect {err / scale_:.3e} at offset scale 1e-9")
     rotating = kind != "frame" or "axis" in bs["motion"]
     res.nontrivial = bool(np.any(B != 0)) and rotating and kind != "point"
